@@ -16,7 +16,7 @@
 (*        crc / match_detected are sampled before the clock edge at which start/valid/data are  *)
 (*        applied, i.e. they show the effect of all earlier cycles ("one cycle after")]         *)
 (*                                                                                             *)
-(* Clauses (hardware): before the first start nothing is specified.  Afterwards, each cycle:    *)
+(* Clauses (hardware), each cycle from reset on (reset leaves initial_crc, like a start):         *)
 (*   crc                  crc = Williams CRC of the words accepted since the last start         *)
 (*   match_residue        match_detected <=> the register holds the residue (documented rule)   *)
 (*   match_own_crc        crc_width is a whole number k of data words and the last k words are  *)
@@ -42,11 +42,10 @@ WellFormed(t) == /\ t.p.w >= 1 /\ t.dw >= 1
 TInit == /\ tid \in 1..Len(Traces)
          /\ P = ParamOf(Traces[tid])
          /\ dw = Traces[tid].dw
-         /\ reg = P.init              \* placeholder: the register is unspecified until the first start
-         /\ started = FALSE
+         /\ reg = P.init              \* out of reset the register holds initial_crc, as after a start
+         /\ started = TRUE
          /\ ws = <<>>
-         /\ rs = <<>>
-         /\ regs = <<>>               \* regs[j+1] = register after j words since the last start
+         /\ regs = <<P.init>>         \* regs[j+1] = register after j words since the last start / reset
          /\ residue = IF WellFormed(Traces[tid]) THEN Residue(P) ELSE <<>>
          /\ i = 1 /\ nown = 0 /\ nmatch = 0 /\ verdict = ""
 
@@ -54,11 +53,11 @@ Reject(step, clause, info) ==
     /\ verdict' = clause
     /\ PrintT(<<"REJ", tid, step, clause>>)
     /\ PrintT(ToString(<<778, tid, info>>))      \* what the specification expected (one unwrapped line)
-    /\ UNCHANGED <<tid, i, regs, residue, nown, nmatch, P, dw, reg, started, ws, rs>>
+    /\ UNCHANGED <<tid, i, regs, residue, nown, nmatch, P, dw, reg, started, ws>>
 Accept(n) ==
     /\ verdict' = "ACC"
     /\ PrintT(<<"ACC", tid, n, nown, nmatch>>)
-    /\ UNCHANGED <<tid, i, regs, residue, nown, nmatch, P, dw, reg, started, ws, rs>>
+    /\ UNCHANGED <<tid, i, regs, residue, nown, nmatch, P, dw, reg, started, ws>>
 
 Malformed == verdict = "" /\ ~WellFormed(T) /\ Reject(0, "malformed", <<>>)
 
@@ -103,7 +102,7 @@ HwStep ==
                /\ nown' = IF own THEN nown + 1 ELSE nown
                /\ nmatch' = IF started /\ mObs THEN nmatch + 1 ELSE nmatch
                /\ i' = i + 1
-               /\ UNCHANGED <<tid, residue, verdict, P, dw, rs>>
+               /\ UNCHANGED <<tid, residue, verdict, P, dw>>
 
 HwFinish ==
     /\ verdict = "" /\ WellFormed(T) /\ T.kind = "hw" /\ i = Len(T.steps) + 1
